@@ -1,4 +1,5 @@
 import IOptProofs.GklsMain
+import IOptProofs.GklsCont
 import IOptProofs.GklsClass
 import IOptProofs.GklsCertAll
 /-!
@@ -78,10 +79,56 @@ theorem C14_class : ∀ d ∈ [2, 3, 4, 5], ∀ k ∈ List.range' 1 100,
   have h := cert_all d hd k hk
   exact ⟨classSpec_of_ClassOK _ (Cert.wf h) (Cert.classOK h), Cert.dim_eq h, Cert.number_eq h⟩
 
+/-- **C14 (quadratic bound at the centres).** In ball `i ≥ 1` the cubic branch satisfies
+`|cubic(x) - f_i| ≤ C_i ‖x - M_i‖²` with `C_i = (ρ_i² + 4 ‖T - M_i‖ ρ_i + 3 |a_i|) / ρ_i²`
+(so the guard value `f_i` differs from the cubic by at most `C_i · 10⁻²⁰` inside the guard region). -/
+theorem C14_quadratic_bound (r : Gen.GklsRaw) (hwf : WF r = true) (x : List ℝ) (hx : x.length = r.dim)
+    (i : Nat) (h1i : 1 ≤ i) (hi : i < 10) (hin : dist x (M r i) ≤ ρ r i) :
+    |cubicVal (toData r) i x - fv r i| ≤ quadC (toData r) i * dist x (M r i) ^ 2 :=
+  cubicVal_sub_le (good_of_WF r hwf) x hx i h1i hi hin
+
+/-- the ideal GKLS function of data set `r`: the model with the PRECISION constant (guard threshold and
+domain slack) set to `0` -/
+noncomputable def Fideal (r : Gen.GklsRaw) (x : List ℝ) : ℝ := gkls (constsP 0) (toData r) x
+
+/-- **C14 (continuity).** The ideal function (guard threshold `0`) is continuous on the box `[-1,1]^n`
+(points are coordinate functions `v : Fin n → ℝ`, evaluated at the list `List.ofFn v`). -/
+theorem C14_continuous (r : Gen.GklsRaw) (hwf : WF r = true) :
+    ContinuousOn (fun v : Fin r.dim → ℝ => Fideal r (List.ofFn v)) (boxSet r.dim) :=
+  ideal_continuousOn (good_of_WF r hwf)
+
+/-- the ideal function and the code's function differ only inside the guard regions: if `x` is in the box and
+at distance `≥ 10⁻¹⁰` from every `M_i` (`i ≥ 1`) then `F x = Fideal x`. -/
+theorem C14_ideal_eq (r : Gen.GklsRaw) (hwf : WF r = true) (x : List ℝ) (hx : x.length = r.dim) (hbox : InBox x)
+    (hfar : ∀ i, 1 ≤ i → i < 10 → (1e-10 : ℝ) ≤ dist x (M r i)) : F r x = Fideal r x := by
+  have hD := good_of_WF r hwf
+  unfold F Fideal
+  by_cases h : ∃ i, 1 ≤ i ∧ i < 10 ∧ dist x (M r i) ≤ ρ r i
+  · obtain ⟨i, h1i, hi, hin⟩ := h
+    have h1 : ¬ dist x (Mi (toData r) i) < 1e-10 := not_lt.mpr (hfar i h1i hi)
+    have h2 : ¬ dist x (Mi (toData r) i) < 0 := not_lt.mpr (dist_nonneg _ _)
+    rw [value_inside hD x hx hbox.inDomain i h1i hi hin,
+      value_insideP hD 0 x hx (hbox.inDomainP (le_refl 0)) i h1i hi hin, if_neg h1, if_neg h2]
+  · have hout : ∀ i, 1 ≤ i → i < 10 → ρ r i < dist x (M r i) := by
+      intro i h1i hi
+      by_contra hc
+      exact h ⟨i, h1i, hi, not_lt.mp hc⟩
+    rw [paraboloid_outside hD x hbox.inDomain hout,
+      paraboloid_outsideP hD 0 x (hbox.inDomainP (le_refl 0)) hout]
+
 /-! ### Non-vacuity -/
 
-/-- the certificate holds on a concrete data set -/
-example : WF (Gen.gkls 2 1) = true := wf_all 2 (by decide) 1 (by decide)
+/-- the certificate holds on a concrete data set (kernel-decided; all 400: `Gkls.wf_all`) -/
+example : WF (Gen.gkls 2 1) = true := by
+  set_option maxRecDepth 100000 in
+  decide +kernel
+
+/-- the certificate discriminates: GKLS(2, 1) with a second global minimum (`f_2 := -1`) or with ball 3
+enlarged to radius 1 is rejected -/
+example : WF { Gen.gkls 2 1 with f := (Gen.gkls 2 1).f.set 2 (-1, 0) } = false ∧
+    WF { Gen.gkls 2 1 with rho := (Gen.gkls 2 1).rho.set 3 (1, 0) } = false := by
+  set_option maxRecDepth 100000 in
+  decide +kernel
 
 /-- the hypotheses of `C14_ball_lower_bound` / `C14_splice` are satisfiable: the minimiser `M_3` of
 GKLS(2, 1) lies in ball 3, has the right length and passes the domain check. -/
@@ -98,5 +145,16 @@ example : InDomain (M (Gen.gkls 2 1) 0) ∧
     ∀ i, 1 ≤ i → i < 10 → ρ (Gen.gkls 2 1) i < dist (M (Gen.gkls 2 1) 0) (M (Gen.gkls 2 1) i) := by
   have hD := good_of_WF _ (wf_all 2 (by decide) 1 (by decide))
   exact ⟨(Mi_inBox hD 0 (by omega)).inDomain, fun i h1i hi => vertex_outside hD i h1i hi⟩
+
+/-- the hypotheses of `C14_splice` are satisfiable for every well-formed data set and every ball: each sphere
+contains a point of the box. -/
+example (r : Gen.GklsRaw) (hwf : WF r = true) (i : Nat) (h1i : 1 ≤ i) (hi : i < 10) :
+    ∃ x : List ℝ, x.length = r.dim ∧ InDomain x ∧ dist x (M r i) = ρ r i := by
+  obtain ⟨x, hx, hb, hs⟩ := exists_on_sphere (good_of_WF r hwf) i h1i hi
+  exact ⟨x, hx, hb.inDomain, hs⟩
+
+/-- evaluating at a hypothesis-satisfying point: the value at the global minimiser of GKLS(2, 1) is `-1`. -/
+example : F (Gen.gkls 2 1) (M (Gen.gkls 2 1) 1) = -1 :=
+  (C14_global_min _ (wf_all 2 (by decide) 1 (by decide))).2.1
 
 end Gkls
